@@ -81,13 +81,26 @@ def run_case(case):
     def td(n):
         return None if n is None else datetime.timedelta(seconds=n * scale)
     clock, phead, head = [0], [], []
+    import functools
+    cm_kind = case.get('cm', 'lambda')
+    if cm_kind == 'default_arg':
+        closing_mapper = lambda i, kind=True: i[1] is kind            # a one-argument mapper that happens to have a defaulted parameter
+    elif cm_kind == 'partial':
+        closing_mapper = functools.partial(lambda flag, i: i[1] is flag, True)
+    elif cm_kind == 'obj':
+        class _CM(object):
+            def __call__(self, i):
+                return i[1]
+        closing_mapper = _CM()
+    else:
+        closing_mapper = lambda i: i[1]
     window_pipeline = [drive.tap(head, clock), rs.data.to_list()]
     # the same list object first serves another time_split with other settings (thrown away): constructing an operator
     # must not modify the caller's list nor leak settings into the next construction
     rs.data.time_split(time_mapper=tm, active_timeout=td(2), inactive_timeout=td(1), closing_mapper=lambda i: True, pipeline=window_pipeline)
     inner = [drive.tap(phead, clock), rs.data.time_split(
         time_mapper=tm, active_timeout=td(active), inactive_timeout=td(inactive),
-        closing_mapper=(lambda i: i[1]) if closing else None, include_closing_item=include,
+        closing_mapper=closing_mapper if closing else None, include_closing_item=include,
         pipeline=window_pipeline)]
     if grouped == 'split':
         ops = [rs.data.split(lambda i: i[2], inner)]       # parent key slot re-used by successive segments
@@ -167,7 +180,7 @@ def case_gen(draw):
         't0': draw(st.integers(0, 3)),
         'deltas': draw(st.lists(st.integers(0, 7), min_size=n, max_size=n)),
         'flags': draw(st.lists(st.integers(0, 3).map(lambda x: int(x == 0)), min_size=n, max_size=n)),
-        'grouped': draw(st.sampled_from([False, True, True, 'split'])), 'scale': draw(st.sampled_from([1, 1, 3600, 43200, 86400])), 'tz': draw(st.booleans()),
+        'grouped': draw(st.sampled_from([False, True, True, 'split'])), 'scale': draw(st.sampled_from([1, 1, 3600, 43200, 86400, 0.2, 0.001])), 'cm': draw(st.sampled_from(['lambda', 'default_arg', 'partial', 'obj'])), 'tz': draw(st.booleans()),
     }
     case['gk'] = draw(st.lists(st.integers(0, 2), min_size=n, max_size=n)) if case['grouped'] else None
     return case
